@@ -140,12 +140,16 @@ def assign_rule(repo, res):
     if fn is None:
         raise AnalysisError("Scenario.assign_obstacles_to_lanelets missing")
     qn = "Scenario.assign_obstacles_to_lanelets"
-    for centre_only in (False, True):
-        label = "centre-only assignment" if centre_only else "assignment by shape"
+    for centre_only, again in ((False, None), (True, None), (False, [T0 + 1]), (True, [T1])):
+        label = ("centre-only assignment" if centre_only else "assignment by shape") + ("" if again is None else ", then once more for time step %s only" % again)
         w = World(repo)
         bad = []
         try:
             w.call("assign_obstacles_to_lanelets", [], {"use_center_only": centre_only})
+            if again is not None:
+                # a second, partial assignment (as a simulation loop does step by step): what was recorded for the other
+                # time steps stays as it is
+                w.call("assign_obstacles_to_lanelets", [], {"time_steps": ListV(list(again)), "use_center_only": centre_only})
         except _Raise as x:
             bad.append("raises %s" % x.what)
         except Undecided as x:
